@@ -7,9 +7,9 @@
 EXTENDS Integers, Sequences, FiniteSets, TLC, Json
 CONSTANT MaxDepth
 Mains == {"for", "for3", "forrange", "forcond", "recursion", "calltree", "mapcb", "eachcb", "filtercb", "sortedcb", "trycb",
-          "tryhandler", "defercb",
+          "tryhandler", "defercb", "tryfin", "sleepfin", "iterfin", "recvtryfin",   \* ...fin: the program ENDS once its last construct was cut short
           "send", "recv", "chaniter", "sleep", "wait", "sendfull", "sendmeth", "sendfullmeth", "recvmeth", "iterbuf"}
-Blocking == {"send", "recv", "chaniter", "sleep", "wait", "sendfull", "sendmeth", "sendfullmeth", "recvmeth", "iterbuf"}     \* mains that tick only a few times before blocking
+Blocking == {"sleepfin", "iterfin", "recvtryfin", "send", "recv", "chaniter", "sleep", "wait", "sendfull", "sendmeth", "sendfullmeth", "recvmeth", "iterbuf"}     \* mains that tick only a few times before blocking
 SpawnForms == {"go", "spawn", "fnspawn"}
 CloneBodies == {"loop", "sleepy", "recv", "sendfull", "sendthenloop", "calltree"}   \* calltree: runs without any backward jump
 Instants == {"deadline", "tick3", "tick40"}
